@@ -31,7 +31,7 @@ def runs_for(prop, tier):
     }
     return table[prop]
 
-def model_stage(tier, seed, mc=True, focus="cold"):
+def model_stage(tier, seed, mc=True, focus="cold", pre_tests=False):
     """Pipelines A + B for the core pipeline properties: exhaustive TLC runs of the generative specification (intended
     behaviour; cold start and the two warm starts around a placeholder swap) and environment histories generated from it
     (bounded behaviours + sampled long behaviours). focus = "warm": most of the replay budget goes to the histories
@@ -44,7 +44,10 @@ def model_stage(tier, seed, mc=True, focus="cold"):
         if mc:
             cfg = "MC_YK_intended.cfg" if tier == "quick" else "MC_YK_intended11.cfg"
             res.update(states=0, transitions=0, model_cfg="")
-            for c in (cfg, "MC_YK_warm.cfg", "MC_YK_warm2.cfg", "MC_YK_full.cfg"):
+            warm_cfgs = {"warm": ("MC_YK_warm.cfg", "MC_YK_warm2.cfg"), "resv": ("MC_YK_full.cfg",), "pre": ("MC_YK_pre.cfg", "MC_YK_pre2.cfg"), "cold": ()}
+            # quick: the cold model and the start states the property is about; thorough: all of them
+            cfgs = (cfg,) + (warm_cfgs[focus] if tier == "quick" else ("MC_YK_warm.cfg", "MC_YK_warm2.cfg", "MC_YK_full.cfg", "MC_YK_pre.cfg", "MC_YK_pre2.cfg"))
+            for c in cfgs:
                 r = G.model_check(work, c, workers=min(C.NCPU, 12))
                 if not r["ok"]:
                     raise C.Infra("the intended-behaviour model (%s) violates %s: specification error" % (c, r["violated"]))
@@ -70,13 +73,31 @@ def model_stage(tier, seed, mc=True, focus="cold"):
             f4, _, _ = G.state_cover_tests(work, 4, warm=3)
             f4 = take(f4, 500)
         ss = G.simulated_tests(work, 250 if quick else 4000, seed)
+        # full nodes held by a queue without guarantee, an application of a guaranteed queue arrives: queue preemption
+        # (own queue layout: conf "mcpre")
+        pre = focus == "pre"
+        p3, p4 = [], []
+        if pre or pre_tests or not quick:
+            p3, _, _ = G.state_cover_tests(work, 3 if quick else 4, warm=4)
+            p3 = take(p3, (700 if pre else 150) if quick else 12000)
+            # ... and with a preemption already in flight
+            p4, _, _ = G.state_cover_tests(work, 3 if quick else 4, warm=5)
+            p4 = take(p4, (2500 if pre else 300) if quick else 12000)
+        if pre:   # the other families only as a smoke test
+            cold, w2, w1, f3, f4, ss = cold[:150], w2[:100], w1[:50], f3[:100], [], ss[:50]
         allt = cold + w2 + w1 + f3 + f4 + ss
         n = 6 if quick else 12
         for i in range(n):
             f = os.path.join(work, "gen-ops-%d.ndjson" % i)
             G.write_ops(allt[i::n], f)
             res["ops_files"].append(f)
-        res.update(tests_bounded=len(cold), tests_warm=len(w1) + len(w2) + len(f3) + len(f4), tests_simulated=len(ss))
+        allp = p3 + p4
+        np_ = ((4 if pre else 1) if quick else 8) if allp else 0
+        for i in range(np_):
+            f = os.path.join(work, "gen-ops-pre-%d.ndjson" % i)
+            G.write_ops(allp[i::np_], f, conf="mcpre")
+            res["ops_files"].append(f)
+        res.update(tests_bounded=len(cold), tests_warm=len(w1) + len(w2) + len(f3) + len(f4) + len(allp), tests_preemption=len(allp), tests_simulated=len(ss))
         return res
     return gen
 
@@ -94,9 +115,10 @@ PREFIXES = {"C13": ["C13_", "C03_", "C01_NodeLedger", "C09_Views", "C05_UserUsag
             # C12: "... and scheduling afterwards still respects the capacity, quota and accounting properties"
             "C12": ["C12_", "C01_NodeLedger", "C01_Step", "C01_AvailNonNeg", "C02_Step", "C03_", "C05_Step", "C05_UserUsage", "C05_GroupUsage"]}
 SECOND_PART = {"C05": "ugmlimits"}   # the user/group manager as a deterministic state machine (spec/UGM.tla, lock-step)
-MODEL_PROPS = {"C01", "C02", "C03", "C04", "C06", "C09", "C10"}   # properties the generative model speaks about
+MODEL_PROPS = {"C01", "C02", "C03", "C04", "C06", "C07", "C08", "C09", "C10"}   # properties the generative model speaks about
 WARM_FOCUS = {"C03", "C04", "C06", "C10"}   # of those, the ones about what happens around a placeholder swap
 RESV_FOCUS = {"C01", "C02", "C09"}   # ... and the ones about full nodes, head room and reservations
+PRE_FOCUS = {"C07", "C08"}           # ... and queue preemption
 CRASH_OWNERS = {"C08", "C13"}   # properties whose statement covers "the core process dies"
 LEVEL_TEXT = {}
 
@@ -118,7 +140,7 @@ def main(argv):
             return
         C.build()
         kf_all = C.known_findings()
-        res = T.run(prop, PREFIXES.get(prop, [prop + "_"]), runs_for(prop, tier), tier, seed, kf_all, NEED[prop], gen=model_stage(tier, seed, focus="warm" if prop in WARM_FOCUS else "resv" if prop in RESV_FOCUS else "cold") if prop in MODEL_PROPS else None)
+        res = T.run(prop, PREFIXES.get(prop, [prop + "_"]), runs_for(prop, tier), tier, seed, kf_all, NEED[prop], gen=model_stage(tier, seed, focus="warm" if prop in WARM_FOCUS else "resv" if prop in RESV_FOCUS else "pre" if prop in PRE_FOCUS else "cold", pre_tests=prop == "C03") if prop in MODEL_PROPS else None)
         # a crash of the core process is a violation for the properties that speak about it, otherwise not a verdict
         crash_infra = None
         for msg, rp in res["crashes"]:
